@@ -339,11 +339,212 @@ pub fn fz_create(data: &[u8]) -> Result<(), String> {
     }
 }
 
+// ---------------------------------------------------------------------------------------------
+
+struct Cur<'a>(&'a [u8]);
+
+impl Cur<'_> {
+    fn u8(&mut self) -> u8 {
+        match self.0.split_first() {
+            Some((b, rest)) => {
+                self.0 = rest;
+                *b
+            }
+            None => 0,
+        }
+    }
+}
+
+const FZ_GTS: [&str; 28] = [
+    "0/0", "0/1", "1/0", "1/1", "0|0", "0|1", "1|0", "1|1", "0/0", "0/1", "1/1", "0|1", "./.", ".|.", "./0", "1/.", ".|1", "0/2", "2/1", "2/2", "3|0", "./2", "10/11", "0/10", "0", "1", "0/0/1",
+    "0|1|1|1",
+];
+
+/// Decodes fuzzer bytes into a structured call set, a sample map and a projection target.
+pub fn decode_callset(data: &[u8]) -> (crate::gen::callset::CallSet, crate::gen::callset::MapSpec, Option<Vec<usize>>, u8) {
+    use crate::gen::callset::{CallSet, Gt, MapSpec, Record};
+    let mut c = Cur(data);
+    let container = c.u8() % 4;
+    let n_samples = 1 + (c.u8() % 6) as usize;
+    let proj = c.u8();
+    let mut entries: Vec<(usize, Option<usize>)> = Vec::new();
+    for i in 0..n_samples {
+        match c.u8() % 5 {
+            0 => {}
+            1 => entries.push((i, None)),
+            2 | 3 => entries.push((i, Some(0))),
+            _ => entries.push((i, Some(1))),
+        }
+    }
+    if entries.is_empty() {
+        entries.push((0, None));
+    }
+    if proj & 2 != 0 {
+        entries.reverse();
+    }
+    let map = MapSpec {
+        entries,
+        labels: vec!["A".into(), "B".into()],
+        as_file: false,
+    };
+    let project = if proj & 1 != 0 { Some(map.pop_sizes().iter().map(|n| 1 + (c.u8() as usize) % (2 * n)).collect::<Vec<usize>>()) } else { None };
+    let selected: Vec<bool> = map.assignment(n_samples).iter().map(|a| a.is_some()).collect();
+    let mut records: Vec<Record> = Vec::new();
+    while c.0.len() >= 2 + n_samples && records.len() < 48 {
+        let hdr = c.u8();
+        let step = c.u8();
+        let n_alt = [1u8, 1, 1, 2, 0, 3, 1, 11][(hdr & 7) as usize];
+        let gts: Vec<Gt> = (0..n_samples)
+            .map(|i| {
+                let mut g = Gt::parse(FZ_GTS[(c.u8() as usize) % FZ_GTS.len()]);
+                for a in g.alleles.iter_mut().flatten() {
+                    *a = (*a).min(n_alt as u64);
+                }
+                // non-diploid genotypes in selected samples only in one record out of sixteen
+                if selected[i] && g.alleles.len() != 2 && step % 16 != 15 {
+                    g = Gt::diploid(Some(0), Some(0), false);
+                }
+                g
+            })
+            .collect();
+        records.push(Record {
+            contig: ((hdr >> 3) & 1) as usize,
+            pos: 1 + step as u64,
+            n_alt,
+            symbolic: n_alt > 0 && hdr & 0x10 != 0,
+            id: hdr & 0x20 != 0,
+            qual: if hdr & 0x40 != 0 { Some(step as u16) } else { None },
+            filter: step % 3,
+            info: step & 7,
+            fmt_dp: step & 8 != 0,
+            fmt_gq: step & 16 != 0,
+            ref_pad: if step == 255 { 300 } else { 0 },
+            has_gt: hdr != 0xff,
+            force: 0,
+            gts,
+        });
+    }
+    records.sort_by_key(|r| r.contig);
+    let (mut last, mut pos) = (usize::MAX, 0u64);
+    for r in records.iter_mut() {
+        if r.contig != last {
+            last = r.contig;
+            pos = 0;
+        }
+        pos += r.pos;
+        r.pos = pos;
+    }
+    let cs = CallSet {
+        contigs: vec!["ctgA7".into(), "ctgBb8".into()],
+        samples: (0..n_samples).map(|i| format!("s{i}")).collect(),
+        records,
+    };
+    (cs, map, project, container)
+}
+
+/// bytes -> structured call set -> {VCF, raw BCF, BGZF VCF, BGZF BCF} bytes -> genotype reader ->
+/// site reader loop; every record's fate and the final spectrum must equal the reference model.
+pub fn fz_callset(data: &[u8]) -> Result<(), String> {
+    use crate::model::{
+        create::{create, RecordFate},
+        spec::Spec,
+    };
+    use sfs_core::array::Shape;
+    if data.len() < 8 {
+        return Ok(());
+    }
+    let (cs, map, project, container) = decode_callset(data);
+    let want = create(&cs, &map, project.as_deref());
+    let bytes: Vec<u8> = match container {
+        0 => cs.to_vcf().into_bytes(),
+        1 => crate::gen::bcf::to_bcf(&cs).0,
+        2 => crate::gen::bgzf::compress(cs.to_vcf().as_bytes(), &crate::gen::bgzf::Layout::plain()).0,
+        _ => crate::gen::bgzf::compress(&crate::gen::bcf::to_bcf(&cs).0, &crate::gen::bgzf::Layout::plain()).0,
+    };
+    let list: Vec<(Sample, Population)> = map
+        .entries
+        .iter()
+        .map(|(s, l)| {
+            (
+                Sample::from(&cs.samples[*s]),
+                match l {
+                    Some(l) => Population::from(Some(&map.labels[*l])),
+                    None => Population::Unnamed,
+                },
+            )
+        })
+        .collect();
+    let what = format!("call set of {} records x {} samples, container {container}, map {:?}, project {project:?}", cs.records.len(), cs.samples.len(), map.entries);
+    let greader = genotype::reader::Builder::default()
+        .set_threads(NonZeroUsize::new(1).unwrap())
+        .build_from_bufread(Cursor::new(bytes))
+        .map_err(|e| format!("{what}: valid input rejected by the genotype reader: {e}"))?;
+    let builder = site::reader::Builder::default()
+        .set_samples(Some(Samples::List(list)))
+        .set_project(project.as_ref().map(|m| Project::Shape(Shape(m.iter().map(|m| m + 1).collect()))));
+    let mut reader = builder.build(greader).map_err(|e| format!("{what}: site reader builder failed: {e}"))?;
+    let mut scs: Scs = reader.create_zero_scs();
+    let mut i = 0usize;
+    loop {
+        let status = reader.read_site();
+        let expected = want.fates.get(i);
+        match status {
+            ReadStatus::Read(site) => {
+                let counted = match site {
+                    Site::Standard(c) => {
+                        let idx: &[usize] = c.as_ref();
+                        if scs.inner().get(idx).is_none() {
+                            return Err(format!("{what}: record {i}: count index {idx:?} outside the spectrum"));
+                        }
+                        scs[c] += 1.0;
+                        true
+                    }
+                    Site::Projected(p) => {
+                        p.add_unchecked(&mut scs);
+                        true
+                    }
+                    Site::InsufficientData => false,
+                };
+                match expected {
+                    Some(RecordFate::Counted) if counted => {}
+                    Some(RecordFate::Skipped) if !counted => {}
+                    other => return Err(format!("{what}: record {i} was {} but the model says {other:?}", if counted { "counted" } else { "skipped" })),
+                }
+            }
+            ReadStatus::Error(e) => {
+                if want.first_error != Some(i) {
+                    return Err(format!("{what}: record {i} failed with {e} but the model expects {expected:?} (first ploidy error at {:?})", want.first_error));
+                }
+                return Ok(());
+            }
+            ReadStatus::Done => {
+                if i != cs.records.len() || want.first_error.is_some() {
+                    return Err(format!("{what}: stream ended after {i} records; the model has {} records and a first ploidy error at {:?}", cs.records.len(), want.first_error));
+                }
+                break;
+            }
+        }
+        i += 1;
+    }
+    let got = Spec::from_scs(&scs);
+    if got.shape != want.spectrum.shape {
+        return Err(format!("{what}: shape {:?}, model {:?}", got.shape, want.spectrum.shape));
+    }
+    for (k, (g, w)) in got.values.iter().zip(&want.spectrum.values).enumerate() {
+        let ok = if project.is_none() { g == w } else { (g - w).abs() <= 1e-9 * (1.0 + w.abs()) };
+        if !ok {
+            return Err(format!("{what}: flat entry {k} is {g}, model {w}"));
+        }
+    }
+    Ok(())
+}
+
 pub fn run_target(name: &str, data: &[u8]) -> Result<(), String> {
     match name {
         "fz_npy" => fz_npy(data),
         "fz_spectrum" => fz_spectrum(data),
         "fz_create" => fz_create(data),
+        "fz_callset" => fz_callset(data),
         other => Err(format!("unknown fuzz target {other}")),
     }
 }
